@@ -1174,21 +1174,39 @@ func onlyOrigins(origins []string, allowed ...string) bool {
 // an edge on which one of the guards is passed nor executes an instruction
 // satisfying barrier. Returns the block path or nil.
 func ReachTargetAvoiding(fn *ssa.Function, target ssa.Instruction, guards []Guard, barrier func(ssa.Instruction) bool) []*ssa.BasicBlock {
+	return ReachFromAvoiding(fn, nil, func(in ssa.Instruction) bool { return in == target }, guards, barrier)
+}
+
+// ReachFromAvoiding generalises ReachTargetAvoiding: the search starts just
+// after `start` (function entry when nil) and ends at the first instruction
+// satisfying isTarget.
+func ReachFromAvoiding(fn *ssa.Function, startAfter ssa.Instruction, isTarget func(ssa.Instruction) bool, guards []Guard, barrier func(ssa.Instruction) bool) []*ssa.BasicBlock {
 	type node struct {
 		st   gstate
 		env  map[*ssa.Phi]phiVal
 		prev *node
+		from int
 	}
 	start := &node{st: gstate{fn.Blocks[0], ""}, env: map[*ssa.Phi]phiVal{}}
 	seen := map[gstate]bool{start.st: true}
+	if startAfter != nil {
+		b := startAfter.Block()
+		start = &node{st: gstate{b, "#start"}, env: map[*ssa.Phi]phiVal{}}
+		for i, in := range b.Instrs {
+			if in == startAfter {
+				start.from = i + 1
+			}
+		}
+		seen = map[gstate]bool{}
+	}
 	queue := []*node{start}
 	for len(queue) > 0 {
 		n := queue[0]
 		queue = queue[1:]
 		b := n.st.blk
 		blocked := false
-		for _, in := range b.Instrs {
-			if in == target {
+		for _, in := range b.Instrs[n.from:] {
+			if isTarget(in) {
 				var path []*ssa.BasicBlock
 				for x := n; x != nil; x = x.prev {
 					path = append([]*ssa.BasicBlock{x.st.blk}, path...)
@@ -1335,4 +1353,50 @@ func heldLock(held map[string]bool, suffix string, allowRead bool) bool {
 		}
 	}
 	return false
+}
+
+// phiEdgeGuarded reports whether the idx-th incoming edge of phi can only be
+// taken after guard g was passed.
+func phiEdgeGuarded(fn *ssa.Function, phi *ssa.Phi, idx int, g Guard) bool {
+	blk := phi.Block()
+	if idx >= len(blk.Preds) {
+		return false
+	}
+	p := blk.Preds[idx]
+	if ReachAvoiding(fn, nil, p, []Guard{g}) == nil {
+		return true
+	}
+	if len(p.Instrs) == 0 || len(p.Succs) != 2 {
+		return false
+	}
+	ifi, ok := p.Instrs[len(p.Instrs)-1].(*ssa.If)
+	if !ok {
+		return false
+	}
+	at, af := guardEdges(ifi.Cond, map[*ssa.Phi]phiVal{}, []Guard{g})
+	if at && af {
+		return false // this If does not test the guard
+	}
+	allow := []bool{at, af}
+	for si, s := range p.Succs {
+		if s == blk && allow[si] {
+			return false
+		}
+	}
+	return true
+}
+
+// reachFromBlockStart is ReachFromAvoiding starting at the first instruction of blk.
+func reachFromBlockStart(fn *ssa.Function, blk *ssa.BasicBlock, isTarget func(ssa.Instruction) bool, guards []Guard, barrier func(ssa.Instruction) bool) []*ssa.BasicBlock {
+	if len(blk.Instrs) == 0 {
+		return nil
+	}
+	first := blk.Instrs[0]
+	if isTarget(first) {
+		return []*ssa.BasicBlock{blk}
+	}
+	if barrier != nil && barrier(first) {
+		return nil
+	}
+	return ReachFromAvoiding(fn, first, isTarget, guards, barrier)
 }
